@@ -341,6 +341,12 @@ func FromValue(v types.Value) (ir.Value, error) {
 			}
 			out.Elems = append(out.Elems, x)
 		}
+		// canonical order (cedar-go iterates its hash map in random order)
+		keys := make([]string, len(out.Elems))
+		for i := range out.Elems {
+			keys[i] = ir.JSON(out.Elems[i])
+		}
+		sort.Sort(&byKey{keys, out.Elems})
 		return out, nil
 	case types.Record:
 		out := ir.Value{K: ir.KRecord}
@@ -362,6 +368,18 @@ func FromValue(v types.Value) (ir.Value, error) {
 		return ir.Value{}, fmt.Errorf("nil value")
 	}
 	return ir.Value{}, fmt.Errorf("unknown value type %T", v)
+}
+
+type byKey struct {
+	keys []string
+	vals []ir.Value
+}
+
+func (b *byKey) Len() int           { return len(b.keys) }
+func (b *byKey) Less(i, j int) bool { return b.keys[i] < b.keys[j] }
+func (b *byKey) Swap(i, j int) {
+	b.keys[i], b.keys[j] = b.keys[j], b.keys[i]
+	b.vals[i], b.vals[j] = b.vals[j], b.vals[i]
 }
 
 func FromEntityUID(u types.EntityUID) ir.Value { return ir.Ent(string(u.Type), string(u.ID)) }
